@@ -32,8 +32,8 @@ import numpy as np  # noqa: E402
 import xgi  # noqa: E402
 import xgi.drawing.layout as L  # noqa: E402
 
-from ..core import TRUSTED_COMMON, VERIF, build_and_audit, dec_id, enc_id, finish, idkey, jhash  # noqa: E402
-from ..fn import conclude, gen_hypergraph, run_fn  # noqa: E402
+from ..core import TRUSTED_COMMON, VERIF, build_and_audit, dec_id, enc_id, finish  # noqa: E402
+from ..fn import all_small_hypergraphs, conclude, gen_hypergraph, run_fn  # noqa: E402
 
 # ----------------------------------------------------------------------------- networks
 
@@ -237,7 +237,7 @@ def style_value(arg, kind, ids, H, c):
         if arg.startswith("node"):
             return H.nodes.degree
         if arg.startswith("dyad"):
-            return H.edges.filterby("order", 1).size if arg == "dyad_lw" else H.edges.order
+            return H.edges.filterby("order", 1).size if (arg == "dyad_lw" or not ids) else H.edges.order
         return H.edges.size if arg == "edge_fc" else H.edges.order
     raise KeyError(kind)
 
@@ -269,6 +269,8 @@ def gen_style(rng, c):
                     kinds += ["dictnum"]
             if a == "node_ec":
                 kinds = ["scalar", "list"]
+        elif cls == "hg" and a in ("dyad_lw", "dyad_color", "edge_fc") and rng.random() < 0.5:
+            kinds = ["list", "dict", "stat"]  # per-element argument for zero elements (empty list / dict / stat)
         st[a] = rng.choice(kinds)
     if which in ("draw", "draw_hyperedges") and cls == "hg" and rng.random() < 0.15:
         st["edge_lw"] = "scalar"  # not a parameter of draw_simplices
@@ -311,10 +313,15 @@ def exc_name(ex):
 
 def impl_draw(c):
     H = build(c["cls"], c["H"])
-    pos = pos_dict(c)
+    pos = None if c.get("auto_pos") else pos_dict(c)
     kw = style_kwargs(c, H)
     if c.get("hull"):
         kw["hull"] = True
+    if c.get("labels"):
+        if c["which"] in ("draw", "draw_nodes"):
+            kw["node_labels"] = True
+        if c["which"] != "draw_nodes":
+            kw["hyperedge_labels"] = True
     which = c["which"]
     fig, ax = plt.subplots()
     try:
@@ -467,7 +474,12 @@ def witness(c):
     """witness pattern appended to the failure class of an exception: a complex with mixed int/str labels is the
     pattern of the known format-detection defect; any other raising input is a different finding"""
     kinds = {type(n).__name__ for n in c["H"]["nodes"]}
-    return "@mixed-label-complex" if c["cls"] == "sc" and {"int", "str"} <= kinds else ""
+    if c["cls"] == "sc" and {"int", "str"} <= kinds:
+        return "@mixed-label-complex"
+    if c["f"] == "draw" and c["cls"] == "hg" and c.get("style", {}).get("dyad_lw", "scalar") != "scalar" and not dyad_edges(c) \
+            and c.get("style", {}).get("rescale_sizes", True):
+        return "@empty-dyad-widths"
+    return ""
 
 
 def pred(c, r):
@@ -475,8 +487,8 @@ def pred(c, r):
     if c["f"] == "draw":
         if r["out"] != "ok":
             return [("draw-raised:" + r["out"][4:] + witness(c), f"{c['which']} raised {r['out'][4:]}: {r.get('msg')}")]
-        if c.get("hull"):
-            return fails  # hull drawing only has to succeed
+        if c.get("hull") or c.get("auto_pos"):
+            return fails  # hull drawing / the default layout only have to succeed
         exp = expected_plan(c)
         want_coll = {"draw": 3, "draw_nodes": 1}.get(c["which"], 2)
         if r["ncoll"] != want_coll or not r["attached"]:
@@ -563,7 +575,7 @@ def hyper_members(c):
 # ----------------------------------------------------------------------------- comparison with the model
 
 def frac(v):
-    return Fraction(v) if not isinstance(v, str) else Fraction(v)
+    return Fraction(v)
 
 
 def mpt(p):
@@ -595,7 +607,7 @@ def compare(c, r, m):
             if any(abs(v[i] - float(Fraction(w[i]))) > 1e-9 * max(1.0, abs(Fraction(w[i]))) for i in (0, 1)):
                 return False
         return True
-    if c.get("hull"):
+    if c.get("hull") or c.get("auto_pos"):
         return True
     if m["markers"] is not None or "markers" in r:
         if m["markers"] is None or r.get("markers") != [mpt(p) for p in m["markers"]]:
@@ -652,6 +664,11 @@ def draw_case(rng, cls, enc, which=None, hull=None):
         if (hull if hull is not None else rng.random() < 0.08) and which in ("draw", "draw_hyperedges"):
             c["hull"] = True
     c["style"] = gen_style(rng, c)
+    r = rng.random()
+    if r < 0.05:
+        c["auto_pos"] = True    # pos=None: the default barycenter spring layout (success only)
+    elif r < 0.12 and "hull" not in c:
+        c["labels"] = True      # node_labels / hyperedge_labels (success, and the plan is unchanged)
     return c
 
 
@@ -669,11 +686,6 @@ def layout_cases(rng, cls, enc, names):
 def edgepos_case(rng, cls, enc):
     return {"f": "edge_positions", "cls": cls, "H": enc, "pos": grid_pos(rng, enc["nodes"], collisions=rng.random() < 0.2),
             "pos_kind": rng.choice(["array", "tuple", "list"])}
-
-
-def model_request(c):
-    """what the driver needs (it ignores the rest); cases of functions the model does not know are not sent"""
-    return c
 
 
 def nontrivial(c, r):
@@ -776,6 +788,20 @@ def run_cases(ctx, cases):
         for cls_, detail in pred(c, r):
             ctx.violation(site_of(c), cls_, c, detail=detail)
         return []
+    for c in cases:
+        if c["f"] == "draw":
+            ctx.stats[f"draw:{c['which']}:{c['cls']}"] += 1
+            ctx.stats[f"max_order:{c['max_order']}"] += 1
+            for a, k in c.get("style", {}).items():
+                if isinstance(k, str) and k in KINDS:
+                    ctx.stats[f"style:{a}:{k}"] += 1
+            for flag in ("hull", "auto_pos", "labels"):
+                if c.get(flag):
+                    ctx.stats["draw:" + flag] += 1
+        elif c["f"] == "layout_keys":
+            ctx.stats[f"layout:{c['fn']}:{c['cls']}"] += 1
+        kinds = {type(n).__name__ for n in c["H"]["nodes"]}
+        ctx.stats["labels:" + ("mixed" if len(kinds) > 1 else next(iter(kinds), "none"))] += 1
     known = [c for c in cases if c["f"] != "layout_keys" or c.get("family")]
     unknown = [c for c in cases if c["f"] == "layout_keys" and not c.get("family")]
     dis = run_fn(ctx, "C20", known, impl, pred=p, compare=compare, name="C20", nontrivial=nontrivial)
@@ -847,7 +873,26 @@ def run(ctx):
                 "evaluations = calls of public functions; non-trivial = distinct (case, result) with an edge of >= 2 nodes and a successful call")
     cases = corpus_cases()
     ctx.stats["corpus_cases"] = len(cases)
-    cases += make_cases(ctx, rng, ctx.n(110, 2500), names, draws_per_net=ctx.n(3, 4))
+    cases += make_cases(ctx, rng, ctx.n(220, 2500), names, draws_per_net=ctx.n(3, 4))
+    if not ctx.quick:
+        n_ex = 0
+        fixed = {0: [0, 0], 1: [4, 1], 2: [1, 5], 3: [-3, 2]}
+        for nodes, edges in all_small_hypergraphs(4, 3):
+            if not any(len(ms) >= 2 for _, ms in edges):
+                continue
+            n_ex += 1
+            for cls in ("hg", "sc"):
+                enc = enc_real(build_from_spec(cls, nodes, edges))
+                for mo in (None, 1, 2):
+                    c = {"f": "draw", "which": "draw", "cls": cls, "H": enc, "pos": [[n, fixed[n]] for n in enc["nodes"]],
+                         "pos_kind": "array", "max_order": mo, "style": {}}
+                    if cls == "hg":
+                        c["perm"] = [int(i) for i in np.argsort([len(ms) for _, ms in poly_edges(c)])]
+                    cases.append(c)
+        ctx.exhaustive = True
+        ctx.extra["exhaustive_space"] = (f"predicate and correspondence of xgi.draw over all {n_ex} hypergraphs on 4 nodes with <= 3 distinct "
+                                         "edges (at least one with >= 2 nodes), as Hypergraph and as SimplicialComplex, max_order in {None,1,2}, "
+                                         "fixed integer positions, default style")
     dis = []
     for i in range(0, len(cases), 5000):
         dis += run_cases(ctx, cases[i:i + 5000])
